@@ -16,6 +16,13 @@ pub mod c14;
 pub mod c15;
 pub mod c16;
 pub mod c17;
+pub mod c18;
+pub mod c19;
+pub mod c20;
+pub mod c21;
+pub mod c31;
+pub mod c32;
+pub mod c33;
 pub mod conv;
 pub mod tree;
 
@@ -40,6 +47,13 @@ pub fn dispatch(ctx: &Ctx) -> i32 {
         "C15" => c15::run(ctx),
         "C16" => c16::run(ctx),
         "C17" => c17::run(ctx),
+        "C18" => c18::run(ctx),
+        "C19" => c19::run(ctx),
+        "C20" => c20::run(ctx),
+        "C21" => c21::run(ctx),
+        "C31" => c31::run(ctx),
+        "C32" => c32::run(ctx),
+        "C33" => c33::run(ctx),
         other => {
             eprintln!("unknown property {other}");
             2
